@@ -3,6 +3,5 @@
 set -e
 export GOFLAGS=-mod=mod GOPROXY=off GOSUMDB=off GOTOOLCHAIN=local
 cd "$(dirname "$0")/engine"
-cp /repo/go.sum go.sum.repo 2>/dev/null || true
 go build -o /dev/null ./cmd/vdriver
 echo "setup ok"
